@@ -7,7 +7,7 @@ MUT=${MUT:-/tmp/mut}
 wt=$MUT/$id; out=$MUT/out/$id/$v
 VM=${VM:-/tmp/vm}
 exec 9>$VM.lock; flock 9
-rm -rf ${VM}_src && mkdir -p ${VM}_src $VM && git -C /verif archive HEAD | tar -x -C ${VM}_src
+rm -rf ${VM}_src && mkdir -p ${VM}_src $VM && git -C /verif archive ${VERIF_REV:-HEAD} | tar -x -C ${VM}_src
 rsync -a --delete --exclude .work --exclude lean/.lake --exclude replay ${VM}_src/ $VM/
 mkdir -p $VM/.work
 cd $wt && git checkout -q -- . && git clean -fdq && git apply $out/patch.diff || { echo "cannot apply"; exit 2; }
